@@ -146,8 +146,10 @@ def pipeline(ctx, replay_case=None):
         "48 tables incl. nested ones",
         "nothing is demanded about which inputs Open accepts (a well-formed input may be refused, an ill-formed one accepted: the "
         "latter is recorded under observations_not_judged); text survival is C03/C04's",
-        "the ZIP layer is the standard library's: ZIP-level shapes are enumerated, random byte damage ('noise') is a small seeded "
-        "supplement",
+        "the ZIP layer is the standard library's: ZIP-level shapes and lies of the directory (one field of one entry or of every "
+        "entry, local header and central directory agreeing with each other) are enumerated, random byte damage ('noise') is a "
+        "small seeded supplement; memory is bounded only by the worker's address-space limit (an allocation the lie provokes "
+        "counts when it kills the worker or overruns the time limit)",
     ]
     if replay_case is not None:
         execute(ctx, [replay_case], "replay", pend, shards=1)
